@@ -1,0 +1,66 @@
+//go:build verif
+
+// Machine-checked contracts for package parser (comment-only; read by /verif/govc).
+package parser
+
+//@ package github.com/basecomplextech/spec/internal/lang/parser
+
+// ---- lexer and entry point (C15): any text that is not a schema produces an error value
+//
+// ghost(errMade, 0) == 1: an error value was produced during this call (strconv.ParseInt).
+// text/scanner counts the lexical errors it prints in Scanner.ErrorCount.
+// The generated LALR driver (yyParserImpl.Parse, grammar.go) is assumed: it calls Lex / Error and the
+// grammar actions; "no error recorded ==> a file was produced" is its assumed contract.
+
+//@ func newLexer
+//@   safety[C15]
+//@   modifies scanner.Scanner.*
+//@   ensures[C15] result != nil && result.s != nil && result.s.ErrorCount == 0 && result.err == nil && result.file == nil
+
+//@ func yyLexError
+//@   safety[C15]
+//@   requires isptr(l, lexer) && unbox(l, lexer) != nil && unbox(l, lexer).s != nil
+//@   modifies parser.lexer.err
+//@   ensures[C15] unbox(l, lexer).err != nil && result == -1
+
+//@ func (*lexer).Error
+//@   safety[C15]
+//@   requires l != nil && l.s != nil
+//@   modifies parser.lexer.err at l
+//@   ensures[C15] l.err != nil
+
+//@ func (*lexer).Lex
+//@   safety[C15]
+//@   requires l != nil && l.s != nil && lval != nil
+//@   modifies scanner.Scanner.*
+//@   modifies parser.yySymType.*
+//@   modifies parser.lexer.err
+//@   modifies ghost.errMade at 0
+//@   ensures[C15] ghost(errMade, 0) != old(ghost(errMade, 0)) ==> l.err != nil
+//@   ensures[C15] old(l.err) != nil ==> l.err != nil
+//@   ensures[C15] l.s.ErrorCount >= old(l.s.ErrorCount)
+//@   loop 1 modifies scanner.Scanner.*
+//@   loop 1 invariant ghost(errMade, 0) == old(ghost(errMade, 0)) && l.err == old(l.err) && l.s == old(l.s) && l.s.ErrorCount >= old(l.s.ErrorCount)
+
+//@ func yyNewParser
+//@   trusted
+//@   ensures result != nil
+
+//@ iface yyParser.Parse
+//@   modifies scanner.Scanner.*
+//@   modifies parser.lexer.err
+//@   modifies parser.lexer.file
+//@   modifies ghost.errMade at 0
+//@   ensures unbox(arg0, lexer).s == old(unbox(arg0, lexer).s)
+//@   ensures unbox(arg0, lexer).s.ErrorCount >= old(unbox(arg0, lexer).s.ErrorCount)
+//@   ensures unbox(arg0, lexer).err == nil ==> unbox(arg0, lexer).file != nil
+
+//@ func (*parser).parse
+//@   safety[C15]
+//@   modifies scanner.Scanner.*
+//@   modifies parser.lexer.*
+//@   modifies syntax.File.Path
+//@   modifies ghost.errMade at 0
+//@   ensures[C15] result1 == nil ==> result0 != nil
+//@   ensures[C15] result1 != nil ==> result0 == nil
+//@   assert[C15] after file: lexer.err == nil && lexer.s.ErrorCount == 0
